@@ -6,6 +6,7 @@ CONSTANTS
   PatchKinds = {"plain2", "cfi", "cfistate"}
   FnLayouts = {"one"}
   EndSyms = {FALSE}
+  NoSyms = {FALSE}
   AnnModes = {"none"}
   WithProxyDel = FALSE
   CfiLayouts = {"proc_all", "proc_each", "proc_rs"}
